@@ -28,6 +28,9 @@ C02/Proofs.vos C02/Proofs.vok C02/Proofs.required_vos: C02/Proofs.v Common/Ops.v
 C02/Properties.vo C02/Properties.glob C02/Properties.v.beautified C02/Properties.required_vo: C02/Properties.v Common/Ops.vo Common/Vec.vo Common/VecLemmas.vo C07/Model.vo C07/Proofs.vo C01/Model.vo C01/Proofs.vo C02/Model.vo C02/Proofs.vo
 C02/Properties.vio: C02/Properties.v Common/Ops.vio Common/Vec.vio Common/VecLemmas.vio C07/Model.vio C07/Proofs.vio C01/Model.vio C01/Proofs.vio C02/Model.vio C02/Proofs.vio
 C02/Properties.vos C02/Properties.vok C02/Properties.required_vos: C02/Properties.v Common/Ops.vos Common/Vec.vos Common/VecLemmas.vos C07/Model.vos C07/Proofs.vos C01/Model.vos C01/Proofs.vos C02/Model.vos C02/Proofs.vos
+C02/Remesh.vo C02/Remesh.glob C02/Remesh.v.beautified C02/Remesh.required_vo: C02/Remesh.v Common/Ops.vo Common/Vec.vo C07/Model.vo C08/Model.vo C02/Model.vo
+C02/Remesh.vio: C02/Remesh.v Common/Ops.vio Common/Vec.vio C07/Model.vio C08/Model.vio C02/Model.vio
+C02/Remesh.vos C02/Remesh.vok C02/Remesh.required_vos: C02/Remesh.v Common/Ops.vos Common/Vec.vos C07/Model.vos C08/Model.vos C02/Model.vos
 C03/Corr.vo C03/Corr.glob C03/Corr.v.beautified C03/Corr.required_vo: C03/Corr.v Common/Ops.vo Common/Vec.vo Common/Out.vo C07/Model.vo C07/Corr.vo C01/Model.vo C01/Corr.vo C02/Model.vo C03/Model.vo
 C03/Corr.vio: C03/Corr.v Common/Ops.vio Common/Vec.vio Common/Out.vio C07/Model.vio C07/Corr.vio C01/Model.vio C01/Corr.vio C02/Model.vio C03/Model.vio
 C03/Corr.vos C03/Corr.vok C03/Corr.required_vos: C03/Corr.v Common/Ops.vos Common/Vec.vos Common/Out.vos C07/Model.vos C07/Corr.vos C01/Model.vos C01/Corr.vos C02/Model.vos C03/Model.vos
